@@ -42,6 +42,9 @@ pub const QUERIES: &[&str] = &[
     "//p:c",
     "//*[namespace-uri() = 'u']",
     "//*[namespace::p = 'w']",
+    // attributes defaulted from the DTD
+    "//a/@d/..",
+    "//@d",
 ];
 
 fn walk_attached(doc: &xml_dom::XmlDocument) -> Vec<XmlNode> {
@@ -167,7 +170,8 @@ pub fn order_monitors(l: &Live, queries: &[&str]) -> Vec<(String, String, String
         Ok(keys) => {
             let dump = keys.iter().map(|(k, n)| format!("{}={}", n, k)).collect::<Vec<_>>().join(" ");
             if let Some((_, n)) = keys.iter().find(|(k, _)| *k == 0) {
-                let kind = n.split(':').next().unwrap_or("").to_string();
+                // an attribute that is not in the handle pool is one defaulted from the DTD (see dombfs::SKIP_DEFAULTED)
+                let kind = if n == "attr:?" { "defaulted-attr".to_string() } else { n.split(':').next().unwrap_or("").to_string() };
                 out.push((
                     format!("order-key-zero/{}", kind),
                     format!("an attached {} node has order key 0", kind),
@@ -257,6 +261,8 @@ impl Check for C14C {
             InitialDoc { text: "<r x=\"1\"><a y=\"2\">t</a><b><c/></b></r>", foreign: None, expanded: false },
             InitialDoc { text: "<r><a/>t<!--k--><?p?><b/></r>", foreign: None, expanded: true },
             InitialDoc { text: "<r xmlns:p=\"u\"><p:a><p:c/></p:a></r>", foreign: None, expanded: true },
+            // nodes without an order key of their own: an attribute and a namespace declaration defaulted from the DTD
+            InitialDoc { text: "<!DOCTYPE r [<!ATTLIST a xmlns:q CDATA \"uq\" d CDATA \"v\">]><r><a/><a d=\"x\"/></r>", foreign: None, expanded: true },
         ];
         let frontier = if stage == "bfs0" { (0..docs.len()).map(|i| (i, vec![])).collect() } else { parse_frontier(input) };
         Box::new(DomBfs {
@@ -289,9 +295,9 @@ impl Check for C14C {
     }
     fn meta(&self) -> Meta {
         Meta {
-            rule: "explicit-state search over edit histories (as C12) on documents with at least two levels; after every transition two monitors run: (1) along the harness's own pre-order walk of the attached tree (element, then its attributes, then its children) XmlNode::order() is non-zero and strictly increasing; (2) differential: each of 30 node-set queries (all axes, unions in both operand orders, positional predicates on forward and reverse axes, attributes, prefixed name tests through a caller binding, the namespace axis) selects on the edited document the same positions, in the same order, as on XmlDocument::from_raw(document.to_string()) — positions are computed on a walk that merges adjacent character data, as a re-parse does; (3) the same transition is repeated on a document on which 9 queries were evaluated BEFORE the edit with one evaluation context that is kept across the edit: after the edit they must select what they select on the copy that was never queried (set_attribute / remove_attribute also with the names xmlns:p and xmlns, so that in-scope namespaces change under the queries).",
-            bounds_quick: "4 initial documents (one with a namespace declaration and prefixed elements), history depth 3, 1 created node per history, 30 queries",
-            bounds_thorough: "4 initial documents, history depth 4, 1 created node per history, 30 queries",
+            rule: "explicit-state search over edit histories (as C12) on documents with at least two levels; after every transition two monitors run: (1) along the harness's own pre-order walk of the attached tree (element, then its attributes, then its children) XmlNode::order() is non-zero and strictly increasing; (2) differential: each of 32 node-set queries (all axes, unions in both operand orders, positional predicates on forward and reverse axes, attributes, prefixed name tests through a caller binding, the namespace axis) selects on the edited document the same positions, in the same order, as on XmlDocument::from_raw(document.to_string()) — positions are computed on a walk that merges adjacent character data, as a re-parse does; (3) the same transition is repeated on a document on which 9 queries were evaluated BEFORE the edit with one evaluation context that is kept across the edit: after the edit they must select what they select on the copy that was never queried (set_attribute / remove_attribute also with the names xmlns:p and xmlns, so that in-scope namespaces change under the queries).",
+            bounds_quick: "5 initial documents (one with a namespace declaration and prefixed elements, one with an attribute and a namespace declaration defaulted from the DTD), history depth 3, 1 created node per history, 32 queries",
+            bounds_thorough: "5 initial documents, history depth 4, 1 created node per history, 32 queries",
             assumptions: &["states whose serialization does not re-parse are left to C15"],
             unbounded_total: false,
         }
